@@ -53,3 +53,74 @@ PROPS['C16'] = {
         '"no other index or altered proof verifies": false with duplicate leaves and needs cross-level collision resistance; not claimed',
     ],
 }
+
+
+TECH_V = 'Verus contracts (requires/ensures/loop invariants/decreases) on mechanically extracted real functions; callees opaque with stated contracts'
+
+PROPS['C14'] = {
+    'level': 'proof',
+    'level_text': 'Deductive proof (Verus/Z3) on the real body of DataHash::pad_to_size: a successful call leaves the serialized assertion at exactly the '
+                  'requested size, the hash is untouched, loop and recursion terminate, and from a fresh assertion (no pad2) EVERY ample reserve succeeds '
+                  '(totality, hence the monotonicity of the statement) - for all sizes below 2^31, which no finite set of reserve sizes in a test gives. '
+                  'The COSE half (pad_cose_sig) is a bounded-exhaustive stand-in and not counted as proved.',
+    'level_note': 'CBOR size model (RFC 8949 byte-string header lengths) assumed for to_assertion(); base size uninterpreted; sizes < 2^31; Store::start_save_stream equal-size check not covered.',
+    'technique': TECH_V,
+    'parts': [V('verus:pad', 'pad')],
+    'trusted_base': TB_VERUS + ['to_assertion() is Ok and |data| = base(hash) + hdr(|pad|) + |pad| + (pad2 ? 5 + hdr(|pad2|) + |pad2| : 0), hdr = CBOR byte-string header length',
+                                'serde_bytes::ByteBuf::from(v) holds v'],
+    'rule': 'obligation = one Verus function-level query over real text extracted from /repo on this run',
+    'not_covered': ['Store::start_save_stream / finish_save_stream equal-size checks (whole Store)', 'pad_cose_sig: see the native part'],
+}
+
+PROPS['C15'] = {
+    'level': 'proof',
+    'level_text': 'Deductive proof (Verus/Z3) on the real body of Builder::sign_embeddable with every callee opaque and Store::sign_manifest returning a vector of '
+                  'ARBITRARY length: whenever a placeholder was committed and the call returns Ok, the result has exactly the composed length of the placeholder. '
+                  'Quantifies over all signers/manifests/dynamic assertions, which tests cannot.',
+    'level_note': 'get_composed_manifest length is a function of (raw length, format) (assumed); that the placeholder is large enough in the first place and that the patched asset reads back Valid are not covered.',
+    'technique': TECH_V,
+    'parts': [V('verus:embeddable', 'embeddable')],
+    'trusted_base': TB_VERUS + ['Store::get_composed_manifest(b, f) returns composed_len(|b|, f) bytes', 'Vec::resize (vstd spec)'],
+    'rule': 'obligation = one Verus function-level query over real text extracted from /repo on this run',
+    'not_covered': ['placeholder() sizing', 'end-to-end: the patched asset reads back valid', 'sign_data_hashed_embeddable / sign_box_hashed_embeddable (Store-level)'],
+}
+
+PROPS['C25'] = {
+    'level': 'proof',
+    'level_text': 'Deductive proof (Verus/Z3), partial: the atomic-failure clause only. On the real bodies of update_from_str, set_value, with_string, with_value, '
+                  'from_string and set_thread_local_value: a failing update leaves *self unchanged; a successful one yields settings that passed validate(); the '
+                  'thread-local cell is written only (effect-guard precondition) with a value that decoded and validated. Merge/path/JSON-TOML clauses are not claimed.',
+    'level_note': 'parse_to_value, merge_json, set_at_path, serde_json::{to_value,from_value}, validate opaque; map_err closures replaced by opaque mappers (declared subst rules); thread-local SETTINGS modelled as a cell with get_clone/set.',
+    'technique': TECH_V + '; effect-guard precondition on the thread-local write',
+    'parts': [V('verus:settings', 'settings')],
+    'trusted_base': TB_VERUS + ['with_string/with_value take &self (rustc-enforced immutability)', 'Value::clone preserves decodability'],
+    'rule': 'obligation = one Verus function-level query over real text extracted from /repo on this run',
+    'not_covered': ['JSON-merge semantics (merge_json), dotted-path get/set (set_at_path), JSON == TOML equivalence: serde_json::Value / IndexMap recursion is outside Verus and intractable in CBMC'],
+}
+
+PROPS['C19'] = {
+    'level': 'proof',
+    'level_text': 'Deductive proof (Verus/Z3), partial: on the real body of Store::get_hash_binding_manifest_impl the recursion terminates for EVERY store '
+                  '(decreases = labels not yet visited; cyclic update chains included) and a returned label always names a non-update manifest with a hard binding. '
+                  'The other two traversals of the statement are not covered.',
+    'level_note': 'std HashSet<String> assumed to obey vstd key model; Claim/Store opaque; get_claim returns a claim whose label is in the (finite) store.',
+    'technique': TECH_V + '; termination by a set-cardinality measure',
+    'parts': [V('verus:binding_search', 'binding_search')],
+    'trusted_base': TB_VERUS + ['vstd HashSet model for String keys', 'String determined by its characters', 'Store::get_claim(l) returns a claim stored in the store'],
+    'rule': 'obligation = one Verus function-level query over real text extracted from /repo on this run',
+    'not_covered': ['get_claim_referenced_manifests_impl and ingredient_checks (entry API, log_item!, &mut iteration: outside Verus)',
+                    '"never reports a cyclic, dangling or over-deep graph as Valid"', 'polynomial running time'],
+}
+
+PROPS['C28'] = {
+    'level': 'proof',
+    'level_text': 'Deductive proof (Verus/Z3), partial: the remote-manifest clause. The network fetch is given its permission as a precondition '
+                  '(requires settings.verify.remote_manifest_fetch) and Verus proves the call site in the real Store::handle_remote_manifest satisfies it, for the '
+                  'feature fetch_remote_manifests on and off; with fetching disabled the result is Err, and RemoteManifestUrl(url) for a valid remote URL.',
+    'level_note': 'rule X5 (sync expansion of #[async_generic]) and X6 (cfg resolution) applied; OCSP and time-stamp request gating and "no request anywhere else" (whole-program frame) not covered.',
+    'technique': TECH_V + '; effect-guard precondition on the network callee',
+    'parts': [V('verus:remote_gate', 'remote_gate')],
+    'trusted_base': TB_VERUS + ['Store::fetch_remote_manifest is the only network access reachable from handle_remote_manifest'],
+    'rule': 'obligation = one Verus function-level query over real text extracted from /repo on this run',
+    'not_covered': ['OCSP fetch gating', 'time-stamp authority requests', 'absence of requests in all other code paths (whole-program frame condition)', 'async flavour'],
+}
